@@ -108,11 +108,9 @@ func ruleOnce(m *evalModel, r *Report, rule string) {
 		}
 	}
 	// the loop-carried form
-	for i, op := range m.astPhi.Edges {
-		pred := m.header.Preds[i]
-		if !m.header.Dominates(pred) {
-			continue // entry edge
-		}
+	nextVals, nextFrom := m.nextForms()
+	for i, op := range nextVals {
+		pred := nextFrom[i]
 		n++
 		k := cl.of(op)
 		construct := "next form of the evaluation loop from " + nz(m.regionOf(pred), "block "+pred.Comment) + " (" + describeVal(m.e, op, 0) + ")"
@@ -180,6 +178,26 @@ func (m *evalModel) producingCalls(v ssa.Value, seen map[ssa.Value]bool) []*ssa.
 			out = append(out, m.producingCalls(op, seen)...)
 		}
 		return out
+	// a part of what a call returned (an element of the list of evaluated forms, say) is as much the result
+	// of that call as the whole
+	case *ssa.TypeAssert:
+		return m.producingCalls(x.X, seen)
+	case *ssa.MakeInterface:
+		return m.producingCalls(x.X, seen)
+	case *ssa.ChangeInterface:
+		return m.producingCalls(x.X, seen)
+	case *ssa.Field:
+		return m.producingCalls(x.X, seen)
+	case *ssa.Index:
+		return m.producingCalls(x.X, seen)
+	case *ssa.Lookup:
+		return m.producingCalls(x.X, seen)
+	case *ssa.UnOp:
+		if x.Op == token.MUL {
+			if ia, ok := x.X.(*ssa.IndexAddr); ok {
+				return m.producingCalls(ia.X, seen)
+			}
+		}
 	}
 	return nil
 }
@@ -599,6 +617,8 @@ func checkC01(w *World, r *Report) {
 	}
 	r.rule("C01.once", "only forms are evaluated: the result of an evaluating call (EVAL, eval_ast, Apply, a builtin, the body helper in evaluate-all mode) never flows into the form argument of an evaluating call or into the loop-carried form (each argument and body form is evaluated exactly once)")
 	r.rule("C01.scope", "each evaluating call receives the scope the definition prescribes: def/if/do/application operands the current scope; let binding values and body one unconditional fresh child; closure bodies a child of the closure's defining scope (lexical scoping), also in types.Apply; catch handlers a fresh child; bindings are written into non-fresh scopes only by def and defmacro")
+	macroNeededRule(w, r, "C01.header-values")
+	scopeNewRule(w, r, "C01.scope-new")
 	r.rule("C01.lookup-order", "in every Env lookup the outer scope is consulted only on the not-found edge of the lookup in the receiver's own map (innermost binding wins)")
 	r.rule("C01.order", "sequences are evaluated by ascending range/counted loops with exactly one evaluating call per element whose result is appended in order; the application region evaluates the whole call form with a single eval_ast call (operator first, then operands left to right)")
 	r.rule("C01.falsy", "the if region contains exactly one evaluating call (the condition); its result is used only in equality comparisons whose other operands are exactly nil and false; the then-form flows to the loop only when both comparisons failed, the else-form (or nil) otherwise")
@@ -630,7 +650,7 @@ func checkC01(w *World, r *Report) {
 	// "builtin calls": the builtin receives exactly the evaluated arguments and its result is the call's value
 	r.include("C01.builtin-call-", "C20.", "a builtin call yields the builtin's result for exactly the evaluated arguments (nil as nil), or the error it returned", checkC20, func(rule string) bool {
 		switch rule {
-		case "C20.nil-arg", "C20.siblings", "C20.results":
+		case "C20.nil-arg", "C20.siblings", "C20.results", "C20.verbatim":
 			return true
 		}
 		return false
@@ -1066,20 +1086,33 @@ func ruleFalsy(m *evalModel, r *Report) {
 				r.check(!kv.truthy && isNilConst(v0), "C01.falsy", m.EVAL, "if without else, condition "+kv.name, ex.ret.Pos(), "returns nil on the falsy path only", "the if region returns a non-nil value or returns when the condition is "+kv.name)
 				continue
 			}
+			type contv struct {
+				op     ssa.Value
+				isLoop bool
+			}
+			var conts []contv
 			for _, in := range ex.succ.Instrs {
 				phi, ok := in.(*ssa.Phi)
 				if !ok || !isMalType(phi.Type()) {
 					continue
 				}
 				for i, op := range phi.Edges {
-					if ex.succ.Preds[i] != ex.pred {
-						continue
+					if ex.succ.Preds[i] == ex.pred {
+						conts = append(conts, contv{op, phi == m.astPhi})
 					}
+				}
+			}
+			if op := m.formLeaving(ex.pred); op != nil {
+				conts = append(conts, contv{op, true}) // the form is kept in a cell: what the exit assigned to it
+			}
+			for _, cv := range conts {
+				{
+					op := cv.op
 					key := m.e.keyOf(op).String()
 					d := describeVal(m.e, op, 0)
 					isOp2 := strings.HasSuffix(key, ".Val[2]") || d == "a2"
 					isOp3 := strings.HasSuffix(key, ".Val[3]")
-					if !isOp2 && !isOp3 && phi != m.astPhi {
+					if !isOp2 && !isOp3 && !cv.isLoop {
 						continue // some other loop-carried value
 					}
 					n++
@@ -1453,7 +1486,7 @@ func ruleBinds(w *World, r *Report, e *Engine) {
 			if edgeDominates(ampBlock, 1, b) {
 				inLoop++
 			}
-		} else if loops[0].header.Dominates(b) {
+		} else if loops[0].header.Dominates(b) && !edgeDominates(ampBlock, 0, b) && !edgeDominates(ampBlock, 1, b) {
 			after++
 		}
 	}
@@ -1462,6 +1495,9 @@ func ruleBinds(w *World, r *Report, e *Engine) {
 	for _, b := range fn.Blocks {
 		if blocks[b] || !loops[0].header.Dominates(b) {
 			continue
+		}
+		if edgeDominates(ampBlock, 0, b) || edgeDominates(ampBlock, 1, b) {
+			continue // a test inside one lap (the & branch may leave the function itself), not the one after the loop
 		}
 		if iff := blockIf(b); iff != nil {
 			for _, s := range b.Succs {
@@ -1502,7 +1538,8 @@ func ruleBinds(w *World, r *Report, e *Engine) {
 				}
 				seen[b] = true
 				if ret, ok := b.Instrs[len(b.Instrs)-1].(*ssa.Return); ok {
-					if ev, isErr := errOf(ret); isErr && isNilConst(ev) {
+					// (a success return on the & branch has bound the rest list: nothing can be left over)
+					if ev, isErr := errOf(ret); isErr && isNilConst(ev) && !(ampBlock != nil && edgeDominates(ampBlock, 0, b)) {
 						bypass = true
 					}
 				}
@@ -1904,4 +1941,80 @@ func onlyDefRegions(rs map[string]bool) bool {
 		}
 	}
 	return true
+}
+
+// scopeNewRule: the functions of the env package that hand out scopes (package-level functions with a scope
+// result) return, on every path that returns one, a scope allocated by this call - the struct literal itself
+// or the result of another such function - never a scope they were given. (A constructor that returns its
+// outer scope when there is nothing to bind lets a def in a parameterless body land in the defining scope.)
+func scopeNewRule(w *World, r *Report, rule string) {
+	r.rule(rule, "every package-level function of the env package with a scope result returns, wherever it returns a scope, one that this call allocated (the Env literal, or the result of another such function): a child scope is never the scope it was derived from")
+	isScopeT := func(t types.Type) bool {
+		if strings.HasSuffix(t.String(), "types.EnvType") {
+			return true
+		}
+		_, name, ok := w.namedStruct(t)
+		return ok && name == "Env"
+	}
+	isCtor := func(fn *ssa.Function) bool {
+		if fn == nil || fn.Signature.Recv() != nil || fn.Parent() != nil || len(fn.Blocks) == 0 || !strings.HasSuffix(fnPkgPath(fn), "/env") {
+			return false
+		}
+		res := fn.Signature.Results()
+		return res.Len() >= 1 && isScopeT(res.At(0).Type())
+	}
+	var fresh func(v ssa.Value, depth int) bool
+	fresh = func(v ssa.Value, depth int) bool {
+		if depth > 6 {
+			return false
+		}
+		switch x := v.(type) {
+		case *ssa.MakeInterface:
+			return fresh(x.X, depth+1)
+		case *ssa.ChangeInterface:
+			return fresh(x.X, depth+1)
+		case *ssa.ChangeType:
+			return fresh(x.X, depth+1)
+		case *ssa.Alloc:
+			return x.Heap
+		case *ssa.Call:
+			return isCtor(x.Call.StaticCallee())
+		case *ssa.Extract:
+			return fresh(x.Tuple, depth+1)
+		case *ssa.Phi:
+			for _, ed := range x.Edges {
+				if !isNilConst(ed) && !fresh(ed, depth+1) {
+					return false
+				}
+			}
+			return true
+		}
+		return false
+	}
+	n := 0
+	for _, fn := range w.Funcs {
+		if isTestFunc(w, fn) || !isCtor(fn) {
+			continue
+		}
+		for _, b := range fn.Blocks {
+			ret, ok := b.Instrs[len(b.Instrs)-1].(*ssa.Return)
+			if !ok {
+				continue
+			}
+			if len(ret.Results) == 1 {
+				if c, isCall := ret.Results[0].(*ssa.Call); isCall && c.Call.Signature().Results().Len() > 1 {
+					n++
+					r.check(isCtor(c.Call.StaticCallee()), rule, fn, "scope handed out", ret.Pos(), "allocated by this call", "the results of "+describeVal(nil, c, 0)+" are handed out as a new scope")
+					continue
+				}
+			}
+			v := resolveRet(ret.Results[0])
+			if isNilConst(v) {
+				continue
+			}
+			n++
+			r.check(fresh(v, 0), rule, fn, "scope handed out", ret.Pos(), "allocated by this call", "the scope returned ("+describeVal(nil, v, 0)+") is not one this call allocated: the caller binds parameters and definitions into a scope that already belongs to someone else (a def in the body of a function then lands in the defining scope, and two calls share their locals)")
+		}
+	}
+	r.floor(rule, "returns of the scope constructors", n, 3)
 }
